@@ -218,6 +218,12 @@ func (c10) Run(e *simkit.Env, cc any) {
 		}
 		mu.Unlock()
 	}
+	termReason := map[gen.PID]string{}
+	noteReason := func(pid gen.PID, reason error) {
+		mu.Lock()
+		termReason[pid] = fmt.Sprint(reason)
+		mu.Unlock()
+	}
 	onMsg := func(m any) error {
 		if s, ok := m.(string); ok {
 			switch s {
@@ -260,7 +266,7 @@ func (c10) Run(e *simkit.Env, cc any) {
 				}
 				return onMsg(m)
 			}
-			h.SupTerminate = func(p *ProbeSup, reason error) { terminated(p.PID()) }
+			h.SupTerminate = func(p *ProbeSup, reason error) { noteReason(p.PID(), reason); terminated(p.PID()) }
 			return ProbeSupFactory(h)
 		case "pool":
 			wh := &Hooks{Name: path + ".w", Env: e, Trap: nd.Trap}
@@ -289,7 +295,7 @@ func (c10) Run(e *simkit.Env, cc any) {
 				return act.PoolOptions{PoolSize: int64(nd.Size), WorkerFactory: ProbeFactory(wh)}, nil
 			}
 			h.PoolMessage = func(p *ProbePool, from gen.PID, m any) error { return onMsg(m) }
-			h.PoolTerminate = func(p *ProbePool, reason error) { terminated(p.PID()) }
+			h.PoolTerminate = func(p *ProbePool, reason error) { noteReason(p.PID(), reason); terminated(p.PID()) }
 			return ProbePoolFactory(h)
 		}
 		h.Trap = nd.Trap
@@ -524,6 +530,8 @@ func (c10) Run(e *simkit.Env, cc any) {
 									why = fmt.Sprintf(" [its owner %s was terminated by an injected %s and could not wait]", o.path, h)
 								} else if o.termStep < finalStart {
 									why = fmt.Sprintf(" [its owner %s had terminated on its own before the stop was requested and could not wait]", o.path)
+								} else if tr := termReason[o.pid]; tr != "" && tr != gen.TerminateReasonShutdown.Error() && tr != gen.TerminateReasonNormal.Error() {
+									why = fmt.Sprintf(" [its owner %s ended through a failure and could not wait]", o.path)
 								}
 								break
 							}
